@@ -27,6 +27,7 @@ RULE = ("random rules over 1-3 variables: head V3(f1=x_first, f2=<attribute chai
         "conjunction, disjunction (leaving head variables unbound on one side), negation, predicates, bodies with zero "
         "solutions; caching on and off; the head mentions every variable of the rule (the statement's premise). "
         "Non-trivial: between 1 and all-but-one assignments satisfy the body. distinct by structural hash.")
+RULE += " Size cases (every tier): rules over 50-90 objects (one variable, or two joined) whose body compares two attributes of the same variable."
 LEVEL_TEXT = ("Reference-model monitoring: the multiset of constructed instances (type, identity of object fields, value of "
               "scalar fields) is compared with the oracle; instances are checked to be new, pairwise distinct, of exactly "
               "the head type, holding the original domain objects.")
